@@ -23,3 +23,7 @@ def run(tier, seed):
                         "code does; the property does not say)"],
     }
     return ec.standard_run("C45", tier, seed, plan)
+
+
+def replay(case, seed):
+    return ec.replay_case("C45", case, seed)
